@@ -446,7 +446,7 @@ func (h *hostsRun) checkNotifs(exp []model.Notif, what string) {
 		var rest []string
 		for _, k := range extra {
 			settled := false
-			for _, x := range h.m.ByIP {
+			for _, x := range h.m.Sorted() {
 				if !x.Online && x.Pending && x.IP.Is4() && h.m.NotifKey(x) == k {
 					for _, n := range g {
 						if n.MAC == x.MAC && n.IP != x.IP {
